@@ -23,6 +23,9 @@ PEST_FILES = [
 ]
 
 HAND = [
+    # numbers may carry leading zeros (number = @{ '0'..'9'+ }): the value counts, not the length of the spelling
+    'r = { "x"{00000000002} }', 'r = { "x"{, 000000000003} ~ "y"{0000000000001,00000000000000000002} }', 'r = { "x"{000000000000000000000000001,} }',
+    'r = { PUSH("a") ~ PEEK[00000000001..] }', 'r = { PUSH("a") ~ PEEK[..-000000000001] ~ PEEK[-00000000000002..000000000000003] }', 'r = { "x"{00} ~ "y"{,000} }',
     # tag names have no reserved words (only identifiers exclude a PUSH prefix); raw CR / CR LF inside literals are characters of the literal
     "r = { #PUSH = a }", "r = { #PUSHED = a ~ #PUSH_more = (a | b) }", "r = { #POP = a ~ #PEEK_ALL = a ~ #DROP = a ~ #ANY = a ~ #EOI = a }", "r = { #PUSH_LITERAL = a }", "PUSHED = { a }", "r = { PUSHED }",
     'r = { "a\r\nb" }', 'r = { ^"\r\n" ~ "\r" }', 'r = { PUSH_LITERAL("\r\n") }', "r = { '\r'..'\n' }", "r = { '\r\n'..'~' }", 'r = { "x\ry" | "\n\r" }', "r = { 'a'..'\r' }",
